@@ -88,8 +88,13 @@ class C16(Check):
         r = lambda x: ("None" if pre_ == "r" else "none") if x is None else "%s%d" % (pre_, real.vname(x))  # noqa: E731
         verts = sorted(u.vertices, key=key) if key else u.vertices
         want = []
+        caching = Vertex.NEIGHBOR_CACHING
         for v in verts:
-            nbs = helpers.neighbors(v)
+            Vertex.NEIGHBOR_CACHING = False       # neighbours in neighbors() order = link order
+            try:
+                nbs = helpers.neighbors(v)
+            finally:
+                Vertex.NEIGHBOR_CACHING = caching
             if key:
                 nbs = sorted(nbs, key=key)
             want.append(r(v) + " -> " + ", ".join(r(n) for n in nbs))
